@@ -480,11 +480,15 @@ def two_delayed_source_variables_in_one_operator(case):
     return any(len(v) >= 2 for v in by_op.values())
 
 
-def _kernel(e):
+def _kernel(e, dde=0):
+    """(order, rate) of the ODE chain an edge is approximated by (dde_approx lifts every order to at least dde and turns
+    plain delays into chains too)"""
     import numpy as np
     if e.get("sp") is not None and e.get("d") is not None:
-        n = int(np.round((e["d"] / e["sp"]) ** 2))
+        n = max(int(np.round((e["d"] / e["sp"]) ** 2)), dde)
         return (n, round(n / e["d"], 9))
+    if dde and e.get("d"):
+        return (dde, round(dde / e["d"], 9))
     return (0, 0.0)
 
 
@@ -503,9 +507,10 @@ def vectorized_single_source_unit_with_shared_kernel_group(case):
     for s, es in by_src.items():
         if len(groups[_merged_node_key(spec, _node(s), True)]) != 1:
             continue
-        if not any(e.get("sp") is not None for e in es):
+        dde = int(case.get("cfg", {}).get("dde_approx") or 0)
+        if not any(_kernel(e, dde)[0] for e in es):
             continue
-        ks = [_kernel(e) for e in es]
+        ks = [_kernel(e, dde) for e in es]
         if any(ks.count(k) >= 2 for k in set(ks)):
             return True
     return False
@@ -517,6 +522,8 @@ def discrete_delay_next_to_gamma_kernel_on_one_source(case):
     (delay+spread) and a discrete-delay edge (delay only): the discrete delay is dropped (the ODE-approximation branch
     gives it order 0)"""
     spec = case["spec"]
+    if case.get("cfg", {}).get("dde_approx"):
+        return False      # with dde_approx the plain delay becomes a chain of that order itself
     vec = bool(case.get("cfg", {}).get("vectorize"))
     by_src = {}
     for s, t, e in _abs_edges(spec):
